@@ -383,7 +383,7 @@ def _scale_checks(fn_name, ref=None, shift_invariant=True, weighted=False):
 for _name, _ref, _shift in (("median_absolute_deviation", _ref_mad, True), ("interquartile_range", _ref_iqr, True),
                             ("gapper_scale", _ref_gapper, True), ("q_n", _ref_qn, True),
                             ("biweight_midvariance", _ref_bimidvar, False)):
-    contract("cnvlib/descriptives.py::" + _name + ("#rt" if _name in ("median_absolute_deviation", "weighted_std") else ""),
+    contract("cnvlib/descriptives.py::" + _name + ("#rt" if _name in ("median_absolute_deviation", "weighted_std", "biweight_midvariance") else ""),
              params=dict(a=VecT(NReal)), bounded=True,
              gen=(lambda rng, tier, i, _n=_name: dict(a=_vec(rng, tier, 40 if _n == "q_n" else None)))
              if _name == "q_n" else _gen_a_nan,
